@@ -154,11 +154,11 @@ C_SameKeySame(ev) ==
 \* RELEASED libcrypt.so.1 (events with rel = 1, recorded from the released library or loaded from
 \* /verif/golden); a call of the tree under test must reproduce it byte for byte.
 C02_Released(ev) ==
-  (ev.rel = 0 /\ ev.kprev > 0 /\ ev.kprev < l /\ IsHashEv(T[ev.kprev].e) /\ T[ev.kprev].rel = 1 /\ SameRequest(T[ev.kprev], ev)
+  (ev.rel = 0 /\ ev.rprev > 0 /\ ev.rprev < l /\ IsHashEv(T[ev.rprev].e) /\ T[ev.rprev].rel = 1 /\ SameRequest(T[ev.rprev], ev)
      /\ SpecOutcome(ev).k # "fail"         \* (a method disabled in this configuration is specified to be refused)
      \* the same method computes it in the reference library (bigcrypt and descrypt share their setting space)
      /\ S!Effective(SpecOutcome(ev).m, ev.pl, Len(ev.s)) = S!Effective(S!Dispatch(S!AllMethods, ev.s), ev.pl, Len(ev.s)))
-  => (ev.out = T[ev.kprev].out /\ ObservedSuccess(ev) = ObservedSuccess(T[ev.kprev]))
+  => (ev.out = T[ev.rprev].out /\ ObservedSuccess(ev) = ObservedSuccess(T[ev.rprev]))
 C18_CanHash(ev) == (ObservedSuccess(ev) /\ ev.snull = 0) => S!Checksalt(Enabled, ev.s) # S!SALT_INVALID
 C_Literal(ev) == ev.gs = 1 => (ObservedSuccess(ev) /\ S!StartsWith(ev.out, ev.s))
 \* C14: the handle after crypt_ra
